@@ -3,6 +3,8 @@ package commitlog
 // C08 — compaction keeps the latest value of every key and changes nothing else.
 
 import (
+	pkgErrors "github.com/pkg/errors"
+
 	"context"
 	"fmt"
 	"io"
@@ -93,6 +95,8 @@ type c08 struct {
 	concApp  int
 
 	everAppended map[int64]*rec
+	segSnap      []*segment // every segment object that was listed when a clean started
+	cleaning     bool
 }
 
 func keyString(k []byte) (string, bool) {
@@ -205,6 +209,33 @@ func (c *c08) reverseFrom(clause string, start int64, uncommitted bool) {
 	}
 }
 
+// touchedReplaced reports whether a reader's "segment has been closed" failure is explained
+// by the known finding: every segment object the cleaner has closed so far carries the
+// "replaced" mark (so the reader met one of those through a stale segment list). A closed
+// segment without that mark is a different defect and is reported as such.
+func (c *c08) touchedReplaced(r *Reader, log *commitLog) bool {
+	if c.cleans == 0 && !c.cleaning {
+		return false
+	}
+	for _, sg := range c.segSnap {
+		if sg.closed && !sg.replaced {
+			return false
+		}
+	}
+	return true
+}
+
+// avoidC08 removes the shape that triggers the known finding (live readers across a clean).
+func avoidC08(p *hx.Program, known []string) {
+	var ops []hx.Op
+	for _, op := range p.Ops {
+		if op.K != "rd" {
+			ops = append(ops, op)
+		}
+	}
+	p.Ops = ops
+}
+
 func (c *c08) startReader(start int64, committed bool) {
 	h := c.h1
 	ctx, cancel := context.WithCancel(context.Background())
@@ -221,6 +252,23 @@ func (c *c08) startReader(start int64, committed bool) {
 		for {
 			m, off, ts, ep, err := r.ReadMessage(ctx, buf)
 			if err != nil {
+				// a reader only ends when it is cancelled or the log is closed: compaction replacing or
+				// removing the segment it is parked in must be invisible to it
+				// (with retention configured the reader's own position may have been deleted: not judged)
+				if ctx.Err() == nil && !log.IsClosed() && h.prog.Param("ret_msgs", 0) == 0 {
+					sig := "C08/live/error"
+					if pkgErrors.Cause(err) == ErrSegmentClosed && c.touchedReplaced(r, log) {
+						// known finding: index reads of a segment that a running compaction has already
+						// replaced fail with "segment has been closed" (only data reads are mapped to the
+						// retryable ErrSegmentReplaced), so the reader dies instead of re-initialising
+						sig = "C08/live/error/index-of-replaced-segment"
+					}
+					dbg := ""
+					for _, sg := range log.segments {
+						dbg += fmt.Sprintf("[base=%d closed=%v replaced=%v deleted=%v]", sg.BaseOffset, sg.closed, sg.replaced, sg.deleted)
+					}
+					h.fail("C08/live", sig, "live reader %d (start=%d committed=%v) ended with %q after offsets %v although it was not cancelled and the log is open; segment list %s", lr.id, start, committed, err, lr.offs, dbg)
+				}
 				return
 			}
 			who := fmt.Sprintf("live reader %d (start=%d committed=%v)", lr.id, start, committed)
@@ -336,6 +384,7 @@ func (c *c08) exec(t *testing.T, prog *hx.Program, dec *simrt.Decider, verbose b
 					h.fail("C08/close", "C08/close/error", "%v", err)
 					break
 				}
+				c.segSnap = nil // objects of the closed log are closed without being replaced
 				if _, err := h.open(); err != nil {
 					h.fail("C08/reopen", "C08/reopen/error", "%v", err)
 					break
@@ -404,6 +453,9 @@ func (c *c08) clean(concurrent int, r *simrt.Rand) {
 	before := append([]*rec{}, h.model...)
 	hw0 := h.hwDone
 	segs := h.log.segments
+	c.segSnap = append(c.segSnap, segs...)
+	c.cleaning = true
+	defer func() { c.cleaning = false }()
 	lastBase := segs[len(segs)-1].BaseOffset
 	nseg := len(segs)
 	for _, lr := range c.readers {
